@@ -4,10 +4,12 @@ import (
 	"bytes"
 	"crypto/ecdsa"
 	"crypto/rsa"
+	"crypto/x509"
 	"encoding/hex"
 	"encoding/json"
 	"fmt"
 	"io"
+	"math/big"
 	"sort"
 	"strings"
 
@@ -781,6 +783,26 @@ func targets(c *hl.Ctx) []target {
 		body := append([]byte{0x0a, 0x01, 0x00, 0xa0, 0x82, byte((n + 20) >> 8), byte(n + 20), 0x30, 0x82, byte((n + 16) >> 8), byte(n + 16), 0x06, 0x09, 0x2b, 0x06, 0x01, 0x05, 0x05, 0x07, 0x30, 0x01, 0x01, 0x04, 0x82, byte(n >> 8), byte(n)}, hl.Pattern(n, 1)...)
 		return append([]byte{0x30, 0x82, byte(len(body) >> 8), byte(len(body))}, body...)
 	}}}})
+	// the same responses asked about a particular certificate: serial numbers that match an entry of the seeds, match
+	// none, are zero or negative; with and without an issuer to check the signature against (the certificate is the
+	// caller's own, parsed one: it always has a serial number)
+	ts = append(ts, target{name: "ocsp.ParseResponseForCert", small: 2, run: func(b []byte) {
+		for _, serial := range []int64{1, 0x01d0fa, 0x5456656d, 0, -1} {
+			cert := &x509.Certificate{SerialNumber: big.NewInt(serial)}
+			for _, issuer := range []*x509.Certificate{nil, {}} {
+				if r, err := ocsp.ParseResponseForCert(b, cert, issuer); err == nil && r != nil {
+					_ = r.Status
+				}
+			}
+		}
+	}, seeds: func() [][]byte {
+		var s [][]byte
+		for _, n := range []string{"ocspResponseHex", "ocspResponseWithoutCertHex", "ocspMultiResponseHex", "ocspResponseWithExtensionHex"} {
+			b, _ := hex.DecodeString(ocspSeedsHex[n])
+			s = append(s, b)
+		}
+		return s
+	}})
 	ts = append(ts, target{name: "ocsp.ParseRequest", small: 2, run: func(b []byte) {
 		if r, err := ocsp.ParseRequest(b); err == nil && r != nil {
 			r.Marshal()
